@@ -27,7 +27,7 @@ RULE = ('a case = one history (files x records x decorations) x loader settings 
 ASSUMPTIONS = ['virtual clock patched over cpppo.history.files.timer and cpppo.history.times.timer',
                'out-of-order timestamps are not generated (the loader documents that it ignores them)']
 REQUIRED = ['state:INITIAL', 'state:SWITCHING', 'state:STREAMING', 'state:EXHAUSTED', 'state:AWAITING', 'state:COMPLETE',
-            'replay:completed', 'history:single-record-file', 'history:equal-ts-inside-file', 'history:equal-ts-across-files', 'history:compressed-copy', 'history:delaycompress-layout',
+            'replay:completed', 'history:single-record-file', 'history:equal-ts-inside-file', 'history:equal-ts-across-files', 'history:compressed-copy', 'history:delaycompress-layout', 'history:logged-instant-rounds-into-next-second',
             'history:comment-line', 'history:unusual-path', 'history:corrupt-json-line', 'monitor:on-time-rounds', 'monitor:final-values', 'setting:limit', 'setting:lookahead', 'setting:duration',
             'start:inside', 'start:before', 'start:after']
 TIMEOUT = {'quick': 300, 'thorough': 1800}
@@ -70,7 +70,12 @@ def gen_case(rng):
             data = {'99999': uid}
             for _ in range(rng.randrange(0, 3)):
                 data[str(rng.choice(regs))] = rng.randrange(0, 65536)
-            lines.append(('rec', t, data))
+            # the instant handed to the logger need not be on a millisecond: up to 0.4 ms either side of the logged millisecond, so that
+            # x.9996 (which belongs to the NEXT second once rounded) occurs; the record's time for the checker is the rounded one
+            jitter = rng.choice([0.0, 0.0, -0.0004, -0.0003, 0.0004, 0.00049])
+            lines.append(('rec', t, data, jitter))
+            if jitter < 0 and round(t % 1.0, 2) == 0.0:
+                lines[-1] = ('rec', t, data, jitter, 'carry')
             # decorations after a record (never before the first record of a file: that is the initial frame)
             r = rng.random()
             if r < 0.06:
@@ -129,7 +134,7 @@ def write_history(d, case):
         with logger(fn) as l:
             for ln in f['lines']:
                 if ln[0] == 'rec':
-                    l.write(ln[2], now=ln[1])
+                    l.write(ln[2], now=ln[1] + (ln[3] if len(ln) > 3 else 0.0))
                 elif ln[0] == 'comment':
                     l.comment(ln[1])
                 elif ln[0] == 'badjson':
@@ -346,6 +351,8 @@ def run_case(ctx, case, keep=None):
             ctx.count('history:equal-ts-across-files')
         if any(f['comp'] for f in fl):
             ctx.count('history:compressed-copy')
+        if any(len(l) > 4 for f in fl for l in f['lines']):
+            ctx.count('history:logged-instant-rounds-into-next-second')
         if fl and fl[0].get('layout') == 'delaycompress':
             ctx.count('history:delaycompress-layout')
         for kind, name in (('comment', 'comment-line'), ('badjson', 'corrupt-json-line'), ('badts', 'corrupt-timestamp-line'), ('notabs', 'tabless-line')):
